@@ -1,11 +1,53 @@
+//! Runtime monitors for the transaction status manager:
+//! C22 (subscription streams), C23 (status cache), C44 (preconfirmation gossip).
+//! Everything is driven through the public API of `fuel-core-tx-status-manager`.
+
+mod c22;
+mod c23;
+mod c44;
+mod harness;
+
+use std::time::Duration;
 use vcommon::*;
 
 fn main() {
     let args = Args::parse();
     install_quiet_panic_hook();
     let report = Report::new(&args.property);
-    match args.property.as_str() {
-        other => report.inconclusive(format!("property {other} not implemented in this monitor")),
+
+    // outer wall-clock watchdog: firing is *inconclusive*, never a violation
+    {
+        let report = report.clone();
+        let args = args.clone();
+        let cap = Duration::from_secs(args.by_tier(110, 1500));
+        std::thread::spawn(move || {
+            std::thread::sleep(cap);
+            report.inconclusive(format!("watchdog: monitor still running after {cap:?}"));
+            report.finish(&args, "exploration", "watchdog fired", false, &[]);
+            std::process::exit(0);
+        });
     }
-    report.finish(&args, "exploration", "", false, &[]);
+
+    let (rule, assumptions): (&str, &[&str]) = match args.property.as_str() {
+        "C22" => {
+            c22::run(&args, &report);
+            (c22::RULE, c22::ASSUMPTIONS)
+        }
+        "C23" => {
+            c23::run(&args, &report);
+            (c23::RULE, c23::ASSUMPTIONS)
+        }
+        "C44" => {
+            c44::run(&args, &report);
+            (c44::RULE, c44::ASSUMPTIONS)
+        }
+        other => {
+            report.inconclusive(format!("property {other} not implemented in this monitor"));
+            ("", &[])
+        }
+    };
+    if let Some(n) = args.extra.get("selftest") {
+        report.note(format!("oracle self-test mode {n}: observations were deliberately perturbed on the harness side"));
+    }
+    report.finish(&args, "exploration", rule, false, assumptions);
 }
